@@ -76,6 +76,11 @@ var uriPool = []uriT{
 	{"trailingdot", "https://foo.{D}.:443/{M}", false},
 	// ---- out of domain
 	{"lookalike", "https://evil-{D}/{M}", false},
+	// an inner dot of the root domain replaced by another character (a dot is not a wildcard)
+	{"lookalike", "https://{DH}/{M}", false},
+	{"lookalike", "https://foo.{DH}/{M}", false},
+	{"lookalike", "https://{DY}/{M}", false},
+	{"lookalike", "https://foo.bar.{DY}:8443/{M}", false},
 	{"lookalike", "https://x{D}/{M}", false},
 	{"lookalike", "https://{D}.evil.net/{M}", false},
 	{"lookalike", "https://foo.{D}.evil.net/{M}", false},
@@ -195,7 +200,8 @@ func mixCase(d string, r *rand.Rand) string {
 // expand instantiates a template.
 func expand(t, d, marker string, r *rand.Rand) string {
 	e := foreignHosts[r.Intn(len(foreignHosts))]
-	return strings.NewReplacer("{DU}", strings.ToUpper(d), "{DM}", mixCase(d, r), "{DX}", d[1:], "{D}", d,
+	return strings.NewReplacer("{DU}", strings.ToUpper(d), "{DM}", mixCase(d, r), "{DX}", d[1:], "{DH}", strings.Replace(d, ".", "-", 1),
+		"{DY}", strings.Replace(d, ".", "x", 1), "{D}", d,
 		"{M}", marker, "{R}", label(r), "{E}", e).Replace(t)
 }
 
